@@ -431,15 +431,32 @@ def gen_maps():
     # the two index functions of matching.rs and `phi()` use the literal mask 0xff / shift 8:
     # locate them so that a change of shape is noticed
     w2c = free_fn_body(mt, "wire_to_pad_column", "matching.rs wire_to_pad_column")
-    m = re.search(r"wire\s*\.\s*wrapping_sub\s*\(\s*WIRE_SHIFT\s*\)\s*&\s*(0x[0-9a-fA-F]+|\d+)\s*;", w2c)
-    if not m or not re.search(r"shifted_index\s*/\s*WIRES_PER_COLUMN", w2c):
+    def mask_of(body, lhs, what):
+        """`<lhs> & MASK` or, equivalently for usize and a power-of-two modulus, `<lhs> % MOD`
+        (MOD a literal or a usize const of matching.rs / aw_map.rs): the mask."""
+        m = re.search(lhs + r"\s*&\s*(0x[0-9a-fA-F]+|\d+)\s*[;)]", body)
+        if m:
+            return int(m.group(1), 0)
+        m = re.search(lhs + r"\s*%\s*([A-Z_0-9a-fx]+)\s*[;)]", body)
+        if m:
+            t = m.group(1)
+            v = int(t, 0) if re.fullmatch(r"0x[0-9a-fA-F]+|\d+", t) else None
+            if v is None:
+                for env in (mt_env, aw_env):
+                    if t in env:
+                        v = const_val(env, t)
+                        break
+            if v and v & (v - 1) == 0:
+                return v - 1
+        raise ExtractError(f"{what}: unexpected shape")
+
+    w2c_mask = mask_of(w2c, r"\w+\s*\.\s*wrapping_sub\s*\(\s*WIRE_SHIFT\s*\)", "matching.rs wire_to_pad_column")
+    if not re.search(r"\w+\s*/\s*WIRES_PER_COLUMN", w2c):
         raise ExtractError("matching.rs wire_to_pad_column: unexpected shape")
-    w2c_mask = int(m.group(1), 0)
     c2w = free_fn_body(mt, "pad_column_to_wires", "matching.rs pad_column_to_wires")
-    m = re.search(r"\(\s*\(\s*pad_column\s*\*\s*WIRES_PER_COLUMN\s*\)\s*\+\s*WIRE_SHIFT\s*\)\s*&\s*(0x[0-9a-fA-F]+|\d+)\s*;", c2w)
-    if not m or not re.search(r"first\s*\.\.\s*first\s*\+\s*WIRES_PER_COLUMN", c2w):
+    c2w_mask = mask_of(c2w, r"\(\s*\(?\s*pad_column\s*\*\s*WIRES_PER_COLUMN\s*\)?\s*\+\s*WIRE_SHIFT\s*\)", "matching.rs pad_column_to_wires")
+    if not re.search(r"(\w+)\s*\.\.\s*\1\s*\+\s*WIRES_PER_COLUMN", c2w):
         raise ExtractError("matching.rs pad_column_to_wires: unexpected shape")
-    c2w_mask = int(m.group(1), 0)
     phi = impl_fn_body(aw, r"\bimpl\s+TpcWirePosition\s*\{", "phi", "aw_map.rs TpcWirePosition::phi")
     m = re.search(r"self\s*\.\s*0\s*\.\s*wrapping_sub\s*\(\s*(\d+)\s*\)\s*&\s*(0x[0-9a-fA-F]+|\d+)\s*;", phi)
     if not m or not re.search(r"ANODE_WIRE_PITCH_PHI\s*\*\s*\(\s*shifted_index\s+as\s+f64\s*\+\s*0\.5\s*\)", phi):
